@@ -429,6 +429,26 @@ pub unsafe extern "C" fn public_key_deserialize(
 #[no_mangle]
 pub unsafe extern "C" fn public_key_free(_kp: Option<Box<PublicKey>>) {}
 
+/// Applies a fallible operation to the builder held by a handle. The builder methods
+/// consume the builder, also when they fail: a failed operation must leave the handle's
+/// builder as it was, not empty.
+fn update_builder<B: Clone, F: FnOnce(B) -> Result<B, biscuit_auth::error::Token>>(
+    slot: &mut Option<B>,
+    operation: F,
+) -> Result<(), biscuit_auth::error::Token> {
+    let current = slot.take().expect("builder is none");
+    match operation(current.clone()) {
+        Ok(next) => {
+            *slot = Some(next);
+            Ok(())
+        }
+        Err(e) => {
+            *slot = Some(current);
+            Err(e)
+        }
+    }
+}
+
 impl BiscuitBuilder {
     fn set_context(&mut self, context: &str) {
         let mut inner = self.0.take().unwrap();
@@ -443,24 +463,15 @@ impl BiscuitBuilder {
     }
 
     fn add_fact(&mut self, fact: &str) -> Result<(), biscuit_auth::error::Token> {
-        let mut inner = self.0.take().unwrap();
-        inner = inner.fact(fact)?;
-        self.0 = Some(inner);
-        Ok(())
+        update_builder(&mut self.0, |inner| inner.fact(fact))
     }
 
     fn add_rule(&mut self, rule: &str) -> Result<(), biscuit_auth::error::Token> {
-        let mut inner = self.0.take().unwrap();
-        inner = inner.rule(rule)?;
-        self.0 = Some(inner);
-        Ok(())
+        update_builder(&mut self.0, |inner| inner.rule(rule))
     }
 
     fn add_check(&mut self, check: &str) -> Result<(), biscuit_auth::error::Token> {
-        let mut inner = self.0.take().unwrap();
-        inner = inner.check(check)?;
-        self.0 = Some(inner);
-        Ok(())
+        update_builder(&mut self.0, |inner| inner.check(check))
     }
 }
 #[no_mangle]
@@ -813,24 +824,15 @@ impl BlockBuilder {
     }
 
     fn add_fact(&mut self, fact: &str) -> Result<(), biscuit_auth::error::Token> {
-        let mut inner = self.0.take().unwrap();
-        inner = inner.fact(fact)?;
-        self.0 = Some(inner);
-        Ok(())
+        update_builder(&mut self.0, |inner| inner.fact(fact))
     }
 
     fn add_rule(&mut self, rule: &str) -> Result<(), biscuit_auth::error::Token> {
-        let mut inner = self.0.take().unwrap();
-        inner = inner.rule(rule)?;
-        self.0 = Some(inner);
-        Ok(())
+        update_builder(&mut self.0, |inner| inner.rule(rule))
     }
 
     fn add_check(&mut self, check: &str) -> Result<(), biscuit_auth::error::Token> {
-        let mut inner = self.0.take().unwrap();
-        inner = inner.check(check)?;
-        self.0 = Some(inner);
-        Ok(())
+        update_builder(&mut self.0, |inner| inner.check(check))
     }
 }
 
@@ -997,31 +999,19 @@ pub unsafe extern "C" fn block_builder_free(_builder: Option<Box<BlockBuilder>>)
 
 impl AuthorizerBuilder {
     fn add_fact(&mut self, fact: &str) -> Result<(), biscuit_auth::error::Token> {
-        let mut inner = self.0.take().unwrap();
-        inner = inner.fact(fact)?;
-        self.0 = Some(inner);
-        Ok(())
+        update_builder(&mut self.0, |inner| inner.fact(fact))
     }
 
     fn add_rule(&mut self, rule: &str) -> Result<(), biscuit_auth::error::Token> {
-        let mut inner = self.0.take().unwrap();
-        inner = inner.rule(rule)?;
-        self.0 = Some(inner);
-        Ok(())
+        update_builder(&mut self.0, |inner| inner.rule(rule))
     }
 
     fn add_check(&mut self, check: &str) -> Result<(), biscuit_auth::error::Token> {
-        let mut inner = self.0.take().unwrap();
-        inner = inner.check(check)?;
-        self.0 = Some(inner);
-        Ok(())
+        update_builder(&mut self.0, |inner| inner.check(check))
     }
 
     fn add_policy(&mut self, policy: &str) -> Result<(), biscuit_auth::error::Token> {
-        let mut inner = self.0.take().unwrap();
-        inner = inner.policy(policy)?;
-        self.0 = Some(inner);
-        Ok(())
+        update_builder(&mut self.0, |inner| inner.policy(policy))
     }
 }
 
